@@ -3,6 +3,8 @@
    Object.__new__ + __init__ / Properties.__getitem__. *)
 From Statham.Model Require Import Str Json Elem PyNum Validate.
 From Statham.Proofs Require Import DefaultsProof.
+From Statham.Model Require Import Plain Retr.
+From Statham.Proofs Require Import C04Retrieve.
 
 (* Calling ANY element or model class with no value: its own default, converted exactly as if it
    had been supplied when valid, returned as-is when not; NotPassed when it has none. *)
@@ -64,3 +66,21 @@ Theorem C05_omitted_is_visited : forall k kvs ps name p,
   lookup (p_source p) (merged_members k kvs) = Some None.
 Proof. exact omitted_is_visited. Qed.
 Print Assumptions C05_omitted_is_visited.
+
+(* ---- end to end: what the result of an object call holds for an omitted declared property ---- *)
+(* For every Element / model class e with keyword record k, every object value m it accepts:
+   a declared property (Python name `name`, JSON name p_source p) that m omits and that no
+   patternProperties regex matches (finding K12 otherwise) is present in the result under its
+   PYTHON name, holding exactly what calling the property's element with no value returns - by
+   C05_no_value_law its default converted as if supplied, or as-is when invalid, or the not-passed
+   marker.  Premise local_safe (executable: Retr.local_safeb): well-formed property maps and no
+   member of m named like the Python name of a renamed property (finding K13 otherwise). *)
+Theorem C05_omitted_exposed : forall O e k m kvs' name p,
+  props_of e = match k_properties k with Some l => l | None => [] end ->
+  local_safe e (JObj m) -> NoDup (keys m) ->
+  build_members O (build O) k m = (VPass, kvs') ->
+  In (name, p) (props_of e) -> lookup (p_source p) m = None ->
+  map_matching_o (fun e' => build O e' None) (fun pat => re_search O pat (p_source p)) (k_patternProperties k) = [] ->
+  exists r, build O (p_elem p) None = Ok r /\ lookup name kvs' = Some r.
+Proof. exact omitted_exposed. Qed.
+Print Assumptions C05_omitted_exposed.
